@@ -386,8 +386,15 @@ func readInnerChunks(tx *bolt.Tx, fsID string, off int64) (chunks []chunkEntryWi
 	if err != nil {
 		return nil, fmt.Errorf("metadata bucket of %q not found: %w", fsID, err)
 	}
+	seen := make(map[uint32]struct{})
 	if err := ob.ForEach(func(_, v []byte) error {
 		nodeid := decodeID(v)
+		if _, ok := seen[nodeid]; ok {
+			// Several chunks of this file live in this stream (one key per
+			// innerOffset); all of them have been added at the first visit.
+			return nil
+		}
+		seen[nodeid] = struct{}{}
 		b, err := getNodeBucketByID(nodes, nodeid)
 		if err != nil {
 			return fmt.Errorf("failed to get file bucket %d: %w", nodeid, err)
